@@ -206,7 +206,7 @@ def write_replay(pid, tier, viol, unit_runs, witness=None):
 HARNESS_TARGET = os.path.join(VERIF, '.cache', 'harness-target')
 WITNESS_TESTS = {
     'C01': ['c01_search'], 'C02': ['c01_search'], 'C03': ['c03_witness', 'c03_search'], 'C05': ['c05_witness'], 'C10': ['c10_witness', 'c10_search'],
-    'C09': ['c09_witness'], 'C12': ['c12_witness'], 'C13': ['c13_witness'], 'C17': ['c17_witness', 'c13_witness'], 'C18': ['c18_witness'], 'C19': ['c19_witness'], 'C14': ['c14_witness'], 'C15': ['c15_witness'], 'C16': ['c16_witness'],
+    'C09': ['c09_witness'], 'C12': ['c12_witness'], 'C13': ['c13_witness'], 'C17': ['c17_witness'], 'C18': ['c18_witness'], 'C19': ['c19_witness'], 'C14': ['c14_witness'], 'C15': ['c15_witness'], 'C16': ['c16_witness'],
 }
 
 
@@ -275,6 +275,27 @@ def kill_matrix(pid, units):
                    'total_mutants': sum(1 for j in jobs if not j[1]), 'total_benign': sum(1 for j in jobs if j[1]),
                    'attention': [r for r in res if r[1] not in ('killed', 'verifies')]}
     return out
+
+
+def is_primary(ur, f):
+    """a failed obligation that states the property or an interface between functions: a NAMED clause, a postcondition, a precondition at a
+    call, or a panic site (overflow, bounds, assert!/expect/unwrap, termination).  Auxiliary: unnamed loop invariants, ghost assertions
+    and proof hints of the contracts - when only those fail, the proof ARGUMENT broke, which says nothing about the property."""
+    for m in f.markers:
+        mk = ur.gen.markers[m]
+        nm = mk.get('name')
+        if nm and 'proof hint' not in nm:
+            return True
+    k = f.kind or ''
+    if k.startswith('invariant') or k == 'loop_ensures':
+        return False
+    if k == 'assert' and f.markers:
+        return False          # a ghost assertion inserted by the contracts (unnamed)
+    if k == 'precondition' and any(ur.gen.markers[m]['kind'] == 'hint' for m in f.markers):
+        return False          # a lemma precondition inside a proof hint
+    if k == 'assert' and not f.markers and f.fn and (f.fn.startswith('inserted:') or '#' in f.fn and False):
+        return False
+    return True
 
 def run_property(pid, tier='quick', seed=0, replay=None):
     t0 = time.time()
@@ -542,7 +563,12 @@ def main(argv):
     if viol:
         path = write_replay(pid, a.tier, viol, unit_runs, witness)
         for (ur, f) in viol:
-            print('  failed obligation: %s' % f.oblig)
+            print('  failed obligation: %s%s' % (f.oblig, '' if is_primary(ur, f) else '   [auxiliary]'))
+        if not witness and not any(is_primary(ur, f) for (ur, f) in viol):
+            # only auxiliary obligations (unnamed loop invariants, ghost assertions, proof hints) failed and no failing input was found:
+            # the proof argument no longer goes through for this body - undecided, not a violation
+            print('UNDECIDED property=%s reason=only auxiliary proof obligations failed (the argument of the proof broke on this body; no clause that states the property, no interface contract, no panic site) and the witness search found no failing input; details: %s' % (pid, path))
+            return 2
         suffix = '' if witness else ' no-failing-input-found'
         print('VIOLATION property=%s replay=%s%s' % (pid, path, suffix))
         return 1
